@@ -1331,8 +1331,13 @@ def rule_TX(ctx, tier):
         if not bid.startswith("teos::tx_index::TxIndex::<K, V>::") or bid in (u.id, T + "new") or tb.kind != "method":
             continue
         tw = [bb for bb in tb.rpo() for s_ in tb.blocks[bb]["s"] if s_["k"] == "assign" and len(s_["d"]) > 1 and s_["d"][-1] == "f:tip"]
+        if tw and bid.endswith("::remove_disconnected_block") and all(variant_fact(ctx, tb, x, "None", "HashMap", "::remove") for x in tw):
+            # the one other legitimate move: a block disconnected BELOW the window (the index does not hold it) takes the
+            # window down with it; how far is rule TH's business
+            rr.ok("remove_disconnected_block moves tip only for a block the index does not hold")
+            continue
         if tw:
-            rr.fail("tip-written:%s" % shortfn(bid), "`%s` writes TxIndex.tip; only the eviction in `update` may move it (update does not re-advance it while the index refills after a disconnect, so any other adjustment makes every later height permanently wrong)" % shortfn(bid), where=tb.line_of(tw[0]))
+            rr.fail("tip-written:%s" % shortfn(bid), "`%s` writes TxIndex.tip; only the eviction in `update` — and a disconnection of a block the index does not hold — may move it (update does not re-advance it while the index refills after a disconnect, so any other adjustment makes every later height permanently wrong)" % shortfn(bid), where=tb.line_of(tw[0]))
     rr.ok("tip written only by update (eviction) and new")
     f = P.require(T + "is_full")
     ret = ctx.og.local(f, 0)
